@@ -1,6 +1,7 @@
 import AasVerif.Model.Xsd
 import AasVerif.Props.C13
 import AasVerif.Lemmas.XsdSemConv
+import AasVerif.Lemmas.XsdFacetsB
 import AasVerif.Lemmas.PatternShape
 import AasVerif.Gen.PatternShape
 /-!
@@ -246,5 +247,60 @@ theorem pattern_enforced_full_fails :
 meta-model conventions. -/
 theorem xml_pattern_constant : Gen.Xsd.xmlCharPattern =
     Text.ofString "^[\\x09\\x0A\\x0D\\x20-\\uD7FF\\uE000-\\uFFFD\\U00010000-\\U0010FFFF]*$" := by decide
+
+/-! ### The same on the executable matcher
+
+`XsdRe.matchB` is the matcher the driver runs (C13 correspondence, stream `xsd-match`); by
+`C13.read_matchB_decides` it decides `XsdRe.Matches` on every tree the reader produces, so the facet
+validity the theorems above speak about is computed by `facetsValidB`. -/
+
+/-- **Facet validity is decided by the executable matcher.** -/
+theorem facets_validity_decided (pattern : Option Text) (mn mx : Option Nat) (s : Text) :
+    facetsValidB pattern mn mx s = true ↔ FacetsValid pattern mn mx s :=
+  facetsValidB_iff pattern mn mx s
+
+/-- `pattern_subset` on the matcher: what the matcher accepts for the written pattern, the meta-model
+pattern matches as a whole. -/
+theorem pattern_subset_matchB (p t : Text) (body : List Term) (hp : parse [.str p] = .ok (anchoredAround body))
+    (hna : naTerms body = true)
+    (ht : translate Gen.Xsd.xsdLiteral Gen.Xsd.xsdRange p = .ok t) :
+    ∃ x, XsdRe.read t = .ok x ∧ ∀ s, XsdRe.matchB x s = true → FullMatch (anchoredAround body) s := by
+  obtain ⟨x, hx, hall⟩ := pattern_subset p t body hp hna ht
+  exact ⟨x, hx, fun s hm => hall s (XsdRe.matchB_sound x s hm)⟩
+
+/-- `pattern_exact` on the matcher: on texts without line breaks the matcher's verdict for the written
+pattern IS the verdict of the meta-model pattern. -/
+theorem pattern_exact_matchB (p t : Text) (body : List Term) (hp : parse [.str p] = .ok (anchoredAround body))
+    (hna : naTerms body = true)
+    (ht : translate Gen.Xsd.xsdLiteral Gen.Xsd.xsdRange p = .ok t) :
+    ∃ x, XsdRe.read t = .ok x ∧ ∀ s, NoLB s → (XsdRe.matchB x s = true ↔ FullMatch (anchoredAround body) s) := by
+  obtain ⟨x, hx, hall⟩ := pattern_exact p t body hp hna ht
+  exact ⟨x, hx, fun s hn => (C13.read_matchB_decides t x hx s).trans (hall s hn)⟩
+
+/-- `front_end_pattern_enforced`, computed: the executable facet validity answers `false` for every text
+which breaks a pattern the front end lets through. -/
+theorem front_end_pattern_enforced_computed (prims : List (String × String)) (xp : Text) (prim ty : String)
+    (mn mx : Option Nat) (pat : Text) (r : Regex) (pt : Option Text) (a b : Option Nat) (s : Text)
+    (hpx : (pat != xp) = true) (hp : parse [.str pat] = .ok r)
+    (hshape : patternErrors Gen.PatternShape.checks pat = [])
+    (h : simpleType Gen.Xsd.xsdLiteral Gen.Xsd.xsdRange prims xp prim mn mx [pat] = .restricted ty pt a b)
+    (hbreak : ¬ FullMatch r s) : facetsValidB pt a b s = false := by
+  have := front_end_pattern_enforced prims xp prim ty mn mx pat r pt a b s hpx hp hshape h hbreak
+  rw [← facetsValidB_iff] at this
+  simpa using this
+
+/-- `valid_value_accepted`, computed. -/
+theorem valid_value_accepted_computed (prims : List (String × String)) (xp : Text) (prim ty : String)
+    (mn mx : Option Nat) (pat : Text) (r : Regex) (p : Option Text) (a b : Option Nat) (s : Text)
+    (hpx : (pat != xp) = true) (hp : parse [.str pat] = .ok r) (hne : r.uniates ≠ [])
+    (h : simpleType Gen.Xsd.xsdLiteral Gen.Xsd.xsdRange prims xp prim mn mx [pat] = .restricted ty p a b)
+    (hlen : lengthOk mn mx s.length = true) (hn : NoLB s) (hm : FullMatch r s) : facetsValidB p a b s = true :=
+  (facetsValidB_iff p a b s).mpr (valid_value_accepted prims xp prim ty mn mx pat r p a b s hpx hp hne h hlen hn hm)
+
+/-- the computed validity on concrete facets: `a[b-c]*` with length 1..3 accepts `abc`, rejects `abd`
+(pattern) and `abcb` (length) -/
+example : facetsValidB (some [97, 91, 98, 45, 99, 93, 42]) (some 1) (some 3) [97, 98, 99] = true ∧
+    facetsValidB (some [97, 91, 98, 45, 99, 93, 42]) (some 1) (some 3) [97, 98, 100] = false ∧
+    facetsValidB (some [97, 91, 98, 45, 99, 93, 42]) (some 1) (some 3) [97, 98, 99, 98] = false := by decide
 
 end AasVerif.Props.C14
